@@ -389,6 +389,21 @@ func runC04(c *Check) {
 				}
 			}
 			c.Req(same, un, p.InstrPos(rc), "count-basis", "the master's acknowledgement count is computed from the list that is published", "computed from "+L.String()+" but published "+pubT.String())
+			// the weaker half, which holds on the pinned tree: the basis is at least THIS iteration's list (possibly with
+			// hosts filtered out), never the previous list or anything else
+			fromNew := same
+			base := L
+			if p.IsCall(L, "app.filterOut") {
+				base = L.Args[0]
+			}
+			for _, a := range pubT.Alts() {
+				for _, b := range base.Alts() {
+					if a.V == b.V {
+						fromNew = true
+					}
+				}
+			}
+			c.Req(fromNew, un, p.InstrPos(rc), "count-basis:this-iteration", "the basis of the master's acknowledgement count is the list computed in this iteration (at most with hosts filtered out), not the previously published one", "computed from "+L.String()+" while the published list is "+pubT.String())
 		}
 		c.Req(n == 1, un, "-", "count-basis:site", "one count computation", fmt.Sprintf("%d", n))
 		for _, a := range p.Calls(U, fnAdjust) {
